@@ -133,6 +133,13 @@ fn candidates(i: &Inner, only_objs: Option<&[u8]>, dormant_pool_threads: usize, 
                 out.push(Cand { op: Some(id), obj: o.obj, prop: "C03", clause: "stranded", inv: o.inv, ret: o.ret, detail: format!("{:?} #{} on o{} was accepted at t={} but never ran although the pool may have {} thread(s)", o.kind, id, o.obj, o.ret, pool) });
             } else if pool == 0 && started_with_pool_zero && awaited.contains(&id) {
                 out.push(Cand { op: Some(id), obj: o.obj, prop: "C07", clause: "await-no-progress", inv: o.inv, ret: o.ret, detail: format!("{:?} #{} on o{} is being awaited with no pool thread but never ran", o.kind, id, o.obj) });
+            } else if pool == 0 && started_with_pool_zero {
+                // queued ahead of a future that is being awaited: the awaiting task runs the queue, this operation included
+                if let Some(f) = awaited.iter().find(|f| i.ops[**f].obj == o.obj && o.ret != 0 && i.ops[**f].inv > o.ret && i.ops[**f].start == 0) {
+                    let fk = i.ops[*f].kind;
+                    let prop = if fk == Kind::FutSync { "C08" } else { "C07" };
+                    out.push(Cand { op: Some(id), obj: o.obj, prop, clause: "await-no-progress", inv: o.inv, ret: o.ret, detail: format!("{:?} #{} on o{} is queued ahead of {:?} #{}, which is being awaited with no pool thread, but was never run by the awaiting task", o.kind, id, o.obj, fk, f) });
+                }
             }
         } else if let Some(g) = o.waiting_gate {
             // resuming needs the context that ran it (a parked sync caller, a polling task) or a pool thread
